@@ -30,6 +30,8 @@ pub struct Swarm {
     pub second_folder: bool,
     /// modules vanish from / come back to the disk behind the server's back
     pub external: bool,
+    /// the client sometimes sends several messages without waiting for the server
+    pub bursts: bool,
     /// 0: mixture; 1: each module on one very long line; 2: one token per line
     pub shape: u8,
     /// plain layout (single spaces, one statement per line, no comments): identifiers of
@@ -54,6 +56,7 @@ pub fn swarm(rng: &mut Rng) -> Swarm {
         rename_loops: rng.chance(1, 2),
         second_folder: rng.chance(1, 4),
         external: rng.chance(1, 3),
+        bursts: rng.chance(1, 2),
         aligned: rng.chance(1, 3),
         shape: *rng.pick(&[0, 0, 0, 0, 0, 0, 1, 2]),
     }
@@ -434,7 +437,9 @@ impl Builder<'_> {
             self.events.push(Ev::Checkpoint);
             return;
         }
-        self.events.push(Ev::Request { kind, path, pos, new_name });
+        // one request in four is not waited for: the next notification follows it at once
+        let pipelined = self.sched.chance(1, 4);
+        self.events.push(Ev::Request { kind, path, pos, new_name, pipelined });
     }
     /// Events drawn from the schedule stream between two client notifications.
     fn interleave(&mut self) {
@@ -502,7 +507,9 @@ impl Builder<'_> {
                 let p = self.sched.pick(&cands).clone();
                 let t = self.disk.remove(&p).unwrap();
                 self.deleted.insert(p.clone(), t);
-                self.events.push(Ev::DiskDelete { path: p });
+                // ... or stays but cannot be read: a directory in its place, bytes that are not UTF-8
+                let how = *self.sched.pick(&[0u8, 0, 1, 2]);
+                self.events.push(Ev::DiskDelete { path: p, how });
             }
         }
         if !self.deleted.is_empty() && self.sched.chance(1, 5) {
@@ -543,6 +550,11 @@ impl Builder<'_> {
                     self.events.push(Ev::Close { path: p.clone() });
                 }
             }
+        }
+        if self.sw.bursts && self.sched.chance(1, 5) && !self.full() {
+            // the client stops waiting for a while
+            let n = self.sched.range(2, 5) as u8;
+            self.events.push(Ev::Burst { n });
         }
     }
 }
